@@ -302,8 +302,9 @@ impl AssemblyCode {
                 match &second {
                     None => return removed_instructions,
                     Some(AsmLine::Instruction(_)) => break,
-                    Some(AsmLine::Label(_)) => {
-                        // If this is a label, restart
+                    Some(AsmLine::Label(_)) | Some(AsmLine::Inline(_, _)) => {
+                        // If this is a label, restart. Inline assembly is opaque: it may change
+                        // any register or flag, and the instructions around it are not a pair
                         first = iter.next();
                         loop {
                             match &first {
@@ -334,14 +335,6 @@ impl AssemblyCode {
                         } else {
                             unreachable!();
                         }
-                    }
-                    Some(AsmLine::Inline(_, _)) => {
-                        // Inline assembly may change any register or flag
-                        accumulator = None;
-                        x_register = None;
-                        y_register = None;
-                        flags = FlagsState::Unknown;
-                        second = iter.next();
                     }
                     _ => second = iter.next(),
                 }
